@@ -227,11 +227,10 @@ REP_PATCHES = [("STOSB", 4, 1, 0x7F), ("STOSB", 1, 4, 0x22), ("STOSB", 0, 1, 0xB
                ("MOVSB", 0, 5, 0xBB), ("MOVSB", 3, 2, 0xE7),
                ("STOSD", 1, 1, 0xCAFEBABE), ("STOSD", 0, 1, 0x332211BB),
                ("MOVSD", 1, 1, 0x0BADF00D), ("MOVSD", 0, 1, 0x776655BB)]
-# quick tier: (variant, index in REP_PATCHES); first / middle / last byte, whole immediate and whole instruction, every
-# placement and every string instruction are present
-REP_QUICK = [("rep-same-block-after", 0), ("rep-next-instruction", 1), ("rep-other-block", 2),
-             ("rep-same-block-after", 3), ("rep-same-block-after", 7), ("rep-next-instruction", 8),
-             ("rep-other-block", 13), ("rep-same-block-after", 15)]
+# quick tier: (variant, index in REP_PATCHES); first / middle / last byte and whole immediate, every placement and
+# every string instruction are present
+REP_QUICK = [("rep-next-instruction", 1), ("rep-next-instruction", 0), ("rep-other-block", 2),
+             ("rep-other-block", 7), ("rep-same-block-after", 13), ("rep-next-instruction", 15)]
 
 # ---- host write to the last instruction of a translated range, after an invalidation step --------------------------
 # P = the unconditional branch ending the loop body; the code after it (`fall`) is never translated before the write,
@@ -312,12 +311,18 @@ def store_text(arch, width, value):
 _asm_cache = {}
 
 
-def rep_store_text(insn, count, value):
-    lines = ["MOV EDI, EBP", "MOV ECX, %d" % count]
+REP_PARAMS = 0x20       # offset in the data page of the count and fill-value words read by the rep-* programs
+
+
+def rep_store_text(insn):
+    """count (and fill value) come from the data page, read *before* the REP instruction, so that one program per
+    (placement, instruction) serves every patch"""
+    d = jitlab.layout("x86_32")["data"]
+    lines = ["MOV EDI, EBP", "MOV ECX, DWORD PTR [0x%X]" % (d + REP_PARAMS)]
     if insn.startswith("STOS"):
-        lines.append("MOV EAX, 0x%X" % (value if REP_UNIT[insn] == 4 else value * 0x01010101))
+        lines.append("MOV EAX, DWORD PTR [0x%X]" % (d + REP_PARAMS + 4))
     else:
-        lines.append("MOV ESI, 0x%X" % jitlab.layout("x86_32")["data"])
+        lines.append("MOV ESI, 0x%X" % d)
     lines.append("REP " + insn)
     return "\n    ".join(lines)
 
@@ -331,12 +336,12 @@ def rep_bytes(hist):
 def build(arch, variant, width, value, hist=None):
     key = (arch, variant, width, value if arch == "x86_32" else 0)
     if variant.startswith("rep-"):
-        key = (arch, variant, hist["insn"], hist["count"], hist["value"])
+        key = (arch, variant, hist["insn"])
     elif variant == "host-tail":
         key = (arch, variant)
     if key not in _asm_cache:
         if variant.startswith("rep-"):
-            text = X86_REP[variant].replace("{store}", rep_store_text(hist["insn"], hist["count"], hist["value"]))
+            text = X86_REP[variant].replace("{store}", rep_store_text(hist["insn"]))
         elif variant == "host-tail":
             text = X86_TAIL if arch == "x86_32" else ARM_TAIL
         else:
@@ -365,7 +370,9 @@ def make_scenario(hist, backend, retranslate):
         regs_extra = {"R4": target, "R3": hist["value"]}
     dpages = []
     if hist["variant"].startswith("rep-"):
-        dpages = [[lay["data"], 3, rep_bytes(hist).ljust(0x20, b"\xcc"), "data"]]
+        fill = hist["value"] if REP_UNIT[hist["insn"]] == 4 else hist["value"] * 0x01010101
+        dpages = [[lay["data"], 3, rep_bytes(hist).ljust(REP_PARAMS, b"\xcc") + jitlab.pack(hist["count"], 4, False)
+                   + jitlab.pack(fill, 4, False), "data"]]
     if hist["variant"] == "host-tail":
         # the guest store: dead code of `main` (handled automod event) or the bottom of the stack page
         dead = labels["main"] if hist["inval"] == "automod" else lay["stack"] + 0x10
@@ -558,7 +565,7 @@ class C22(Check):
             "vm.set_u8/16/32) while stopped on a breakpoint at the loop head, on P, or right after P; fixed patch "
             "values (10 for x86_32, 8 for arml; every other one in the quick tier, all in thorough), plus seeded random immediates "
             "and stop iterations; plus x86_32 REP STOSB/STOSD/MOVSB/MOVSD writers (multi-irblock instructions; counts "
-            "1-5 on P's first / middle / last byte, immediate, whole instruction; 3 placements; 8 histories quick, 51 "
+            "1-5 on P's first / middle / last byte, immediate, whole instruction; 3 placements; 6 histories quick, 51 "
             "thorough) and host writes to the first / last byte of the branch ending a translated range directly after "
             "an invalidation step (none, add_breakpoint / set_breakpoint on a translated block start, add_breakpoint "
             "inside a translated block, handled automod event; x86_32 and arml; 12 histories quick, 80 thorough); both backends; reference = same history with the translation cache cleared "
